@@ -56,11 +56,11 @@ const basePreamble = `(declare-datatypes ((Slice 0)) (((mk_slice (s_arr Int) (s_
 (assert (= (f32 1065353216) ((_ to_fp 8 24) RNE 1.0)))
 `
 
-func (P *Prog) preamble(reveal func(string) bool) string {
+func (P *Prog) preamble(reveal func(string) bool, text string) string {
 	var b strings.Builder
 	b.WriteString(basePreamble)
 	b.WriteString(P.ss.declareDatatypes())
-	b.WriteString(P.recDefs(reveal))
+	b.WriteString(P.recDefs(reveal, text))
 	return b.String()
 }
 
@@ -89,7 +89,8 @@ func (o *Obligation) scriptV(P *Prog, models bool, hide int) string {
 		}
 		reveal = func(name string) bool { return set[name] }
 	}
-	b.WriteString(P.preamble(reveal))
+	b.WriteString(symbolicArith(hide == 2 || hide == 3))
+	b.WriteString(P.preamble(reveal, strings.Join(o.Facts, "\n")+"\n"+o.Neg))
 	for _, d := range o.Decls {
 		b.WriteString(d)
 		b.WriteByte('\n')
@@ -196,12 +197,38 @@ func solve(P *Prog, o *Obligation, timeoutMs int, all bool) *Result {
 		variant            int
 	}
 	ch := make(chan ans, len(jobs))
-	for _, jb := range jobs {
-		jb := jb
+	// staged start: the cheap combinations first; the rest only if nothing answered within 2 s
+	// (most obligations are discharged in milliseconds, so the later stages rarely start)
+	stage := func(jb job) int {
+		switch {
+		case jb.variant == 0 && jb.sd.name == "z3-new", jb.variant == 2 && jb.sd.name != "cvc5", jb.variant == 3 && jb.sd.name == "z3-new":
+			return 0
+		}
+		return 1
+	}
+	if all || o.Cover {
+		stage = func(job) int { return 0 }
+	}
+	launch := func(jb job, delay time.Duration) {
 		go func() {
+			if delay > 0 {
+				select {
+				case <-time.After(delay):
+				case <-ctx.Done():
+					ch <- ans{jb.sd.name, "cancelled", "", 0, jb.variant}
+					return
+				}
+			}
 			v, out, ms := runSolver(ctx, jb.sd, jb.script, timeoutMs)
 			ch <- ans{jb.sd.name, v, out, ms, jb.variant}
 		}()
+	}
+	for _, jb := range jobs {
+		if stage(jb) == 0 {
+			launch(jb, 0)
+		} else {
+			launch(jb, 2*time.Second)
+		}
 	}
 	res := &Result{Verdict: "unknown", Outputs: map[string]string{}}
 	var verdicts []string
@@ -302,4 +329,23 @@ func solveAll(P *Prog, obls []*Obligation, timeoutMs int, all bool, workers int)
 	}
 	close(ch)
 	wg.Wait()
+}
+
+// symbolicArith declares the symbolic-operand arithmetic functions: interpreted, or uninterpreted
+// (a sound weakening: every fact about them is then only congruence).
+func symbolicArith(uninterpreted bool) string {
+	if uninterpreted {
+		return `(declare-fun mulS (Int Int) Int)
+(declare-fun fdivS (Int Int) Int)
+(declare-fun fmodS (Int Int) Int)
+(declare-fun tdivS (Int Int) Int)
+(declare-fun tmodS (Int Int) Int)
+`
+	}
+	return `(define-fun mulS ((a Int) (b Int)) Int (* a b))
+(define-fun fdivS ((a Int) (b Int)) Int (div a b))
+(define-fun fmodS ((a Int) (b Int)) Int (mod a b))
+(define-fun tdivS ((a Int) (b Int)) Int (ite (>= a 0) (div a b) (- (div (- a) b))))
+(define-fun tmodS ((a Int) (b Int)) Int (ite (>= a 0) (mod a b) (- (mod (- a) b))))
+`
 }
